@@ -67,6 +67,7 @@ Definition wall (i : id) (w : work) : nat := cnt i (w_ids w).
 Definition wstarted (i : id) (w : work) : nat := if started (w_st w) then cnt i (w_ids w) else 0.
 Definition wincall (i : id) (w : work) : nat := if incall (w_st w) then cnt i (w_ids w) else 0.
 Definition wback (w : work) : nat := if backoff (w_st w) then 1 else 0.
+Definition wbacki (i : id) (w : work) : nat := if backoff (w_st w) then cnt i (w_ids w) else 0.
 Definition wcons (w : work) : nat := if w_cons w then 1 else 0.
 Definition wfly (w : work) : nat := if w_cons w then 0 else 1.
 Definition wlen (w : work) : nat := length (w_ids w).
@@ -100,6 +101,10 @@ Record Inv (c : cfg) (s : state) : Prop := mkInv {
   i_begun_eq : failures s = 0 ->
                forall i, sumf (fin1 i) (finished s) + sumf (wstarted i) (works s) = cnt i (begun s);
   i_noback : failures s = 0 -> sumf wback (works s) = 0;
+  i_failed_nil : failures s = 0 -> failedids s = [];
+  i_begun_eq1 : forall i, cnt i (failedids s) = 0 ->
+                sumf (fin1 i) (finished s) + sumf (wstarted i) (works s) = cnt i (begun s);
+  i_noback1 : forall i, cnt i (failedids s) = 0 -> sumf (wbacki i) (works s) = 0;
   i_ended : forall i, cnt i (ended s) + sumf (wincall i) (works s) = cnt i (begun s);
   i_consumers : idle s + exited s + length (holding s) + length (cflush s) + sumf wcons (works s) = c_ncons c;
   i_workers : workers s + sumf wfly (works s) = c_nwork c;
@@ -124,7 +129,7 @@ Record Inv (c : cfg) (s : state) : Prop := mkInv {
 (* ---- preservation ---------------------------------------------------------------------------- *)
 Ltac unf := unfold new_work, set_queue, set_qstop, set_store, set_refs, set_closed, set_idle, set_exited,
   set_holding, set_cflush, set_current, set_workers, set_works, set_timer, set_bclosed, set_rstop, set_pc,
-  set_accepted, set_accpre, set_late, set_taken, set_begun, set_ended, set_finished, set_failures, set_postb in *.
+  set_accepted, set_accpre, set_late, set_taken, set_begun, set_ended, set_finished, set_failures, set_postb, set_failedids in *.
 
 Ltac destr_step H :=
   repeat (match type of H with
@@ -142,7 +147,7 @@ Ltac splits :=
       revert Hn
   end; intros.
 
-Ltac unm := unfold inflight, inflight_len, tmb, pcb, cnt, wall, wstarted, wincall, wback, wcons, wfly, wlen, fin1,
+Ltac unm := unfold inflight, inflight_len, tmb, pcb, cnt, wall, wstarted, wincall, wback, wbacki, wcons, wfly, wlen, fin1,
   set_st, end_state, started, incall, backoff in *.
 
 Ltac ifs := repeat match goal with
@@ -154,10 +159,10 @@ Ltac rw_eqs := repeat match goal with
   | E : ?f ?x = _ |- _ => is_var x; progress (rewrite E in * )
   end.
 
-Ltac unm2 := unfold inflight, inflight_len, tmb, pcb, wall, wstarted, wincall, wback, wcons, wfly, wlen, fin1,
+Ltac unm2 := unfold inflight, inflight_len, tmb, pcb, wall, wstarted, wincall, wback, wbacki, wcons, wfly, wlen, fin1,
   set_st, end_state, started, incall, backoff in *; unfold cnt in *.
 
-Ltac proj := cbn [queue qstop store refs closed idle exited holding cflush current workers works timer bclosed rstop pc accepted accpre late taken begun ended finished failures postb set_queue set_qstop set_store set_refs set_closed set_idle set_exited set_holding set_cflush set_current set_workers set_works set_timer set_bclosed set_rstop set_pc set_accepted set_accpre set_late set_taken set_begun set_ended set_finished set_failures set_postb new_work] in *.
+Ltac proj := cbn [queue qstop store refs closed idle exited holding cflush current workers works timer bclosed rstop pc accepted accpre late taken begun ended finished failures postb failedids set_queue set_qstop set_store set_refs set_closed set_idle set_exited set_holding set_cflush set_current set_workers set_works set_timer set_bclosed set_rstop set_pc set_accepted set_accpre set_late set_taken set_begun set_ended set_finished set_failures set_postb set_failedids new_work] in *.
 Ltac arith :=
   rewrite ?sumf_app, ?sumf_fin_map in *; unm2; proj; rw_eqs; cbn [sumf length] in *; splits;
   do 3 (rewrite ?sumf_app, ?app_length in *; cbn [sumf length w_ids w_st w_cons fst snd] in * ); rw_eqs;
@@ -207,6 +212,31 @@ Lemma pres_begun_eq c s l s' : Inv c s -> step c s l = Some s' ->
 Proof.
   intros I H. pose proof (i_begun_eq _ _ I) as Hc. pose proof (i_noback _ _ I) as Hb. clear I.
   start H l; intros F ii; try (specialize (Hc F ii); specialize (Hb F)); arith.
+Qed.
+
+Lemma pres_failed_nil c s l s' : Inv c s -> step c s l = Some s' -> failures s' = 0 -> failedids s' = [].
+Proof.
+  intros I H. pose proof (i_failed_nil _ _ I) as Hc. clear I.
+  start H l; intros F; try (exact (Hc F)); try discriminate.
+Qed.
+
+Ltac prem Hc ii F s := try (assert (F0 : cnt ii (failedids s) = 0)
+                            by (revert F; unfold cnt; rewrite ?sumf_app; intros; first [assumption | lia]);
+                          specialize (Hc ii F0)).
+
+Lemma pres_noback1 c s l s' : Inv c s -> step c s l = Some s' ->
+  forall i, cnt i (failedids s') = 0 -> sumf (wbacki i) (works s') = 0.
+Proof.
+  intros I H. pose proof (i_noback1 _ _ I) as Hc. clear I.
+  start H l; intros ii F; prem Hc ii F s; arith.
+Qed.
+
+Lemma pres_begun_eq1 c s l s' : Inv c s -> step c s l = Some s' ->
+  forall i, cnt i (failedids s') = 0 ->
+  sumf (fin1 i) (finished s') + sumf (wstarted i) (works s') = cnt i (begun s').
+Proof.
+  intros I H. pose proof (i_begun_eq1 _ _ I) as Hc. pose proof (i_noback1 _ _ I) as Hb. clear I.
+  start H l; intros ii F; prem Hc ii F s; try (specialize (Hb ii F0)); arith.
 Qed.
 
 Lemma pres_ended c s l s' : Inv c s -> step c s l = Some s' ->
@@ -414,6 +444,9 @@ Proof.
   - exact (pres_begun_ge _ _ _ _ I H).
   - exact (pres_begun_eq _ _ _ _ I H).
   - exact (pres_noback _ _ _ _ I H).
+  - exact (pres_failed_nil _ _ _ _ I H).
+  - exact (pres_begun_eq1 _ _ _ _ I H).
+  - exact (pres_noback1 _ _ _ _ I H).
   - exact (pres_ended _ _ _ _ I H).
   - exact (pres_consumers _ _ _ _ I H).
   - exact (pres_workers _ _ _ _ I H).
